@@ -462,6 +462,48 @@ def emit(mods, dropped, n_bytes, hw_bytes):
                 add("        }")
                 add("    }")
                 harnesses.append("w_%s::%s" % (mid, hname))
+        # hand-written methods of fixed-size *records* (no FontRead impl): the record is taken
+        # from the front of the symbolic buffer with FontData::read_ref_at, offsets it holds are
+        # resolved against the same buffer (types that are not plain-old-data are pruned by rustc)
+        for tname in sorted(types):
+            t = types[tname]
+            tkey = "%s::%s" % (modpath, tname)
+            if t.generic or tkey in dropped or t.read or t.is_table or t.lifetime or tname.endswith("Marker") or t.variants:
+                continue
+            for (mname, arglist, ret, is_gen) in t.methods:
+                if is_gen:
+                    continue
+                key = "%s::%s::%s" % (modpath, tname, mname)
+                hkey = key + "::<record-harness>"
+                if key in dropped or hkey in dropped:
+                    continue
+                hname = "c01_hw_%s__%s__%s" % (mid.replace("tables_", ""), tname, mname)
+                rec_bytes = max(int(sizes.get(tname, 0)), 40)
+                stats["methods_called"] += 1
+                stats["hw_records"] = stats.get("hw_records", 0) + 1
+                for bl in budget_lines(hname):
+                    add(bl)
+                add("    // @vacuity-ok")
+                add("    // @c20")
+                add("    // @bound hand-written accessor %s::%s on a record taken from the front of N=%d symbolic bytes (symbolic length); symbolic arguments; offsets resolved against the same bytes; unwind %d" % (tname, mname, rec_bytes, default_hw + 3))
+                add("    #[cfg_attr(kani, kani::proof)]")
+                add("    #[cfg_attr(kani, kani::unwind(%d))]" % (default_hw + 3))
+                add("    pub fn %s() { // %s" % (hname, hkey), hkey)
+                add("        let buf: [u8; %d] = kani::any();" % rec_bytes)
+                add("        let len: usize = kani::any();")
+                add("        kani::assume(len <= %d);" % rec_bytes)
+                add("        let data = FontData::new(&buf[..len]);")
+                add("        let r = data.read_ref_at::<%s>(0);" % tname, hkey)
+                add("        kani::cover!(r.is_ok(), \"read succeeds\");")
+                add("        if let Ok(t) = r {")
+                add("            let cx = Cx { data, depth: 1 };")
+                if any(at == "&[F2Dot14]" for (_, at) in arglist):
+                    add("            let __coords: ([F2Dot14; 2], usize) = ([F2Dot14::from_bits(kani::any()), F2Dot14::from_bits(kani::any())], kani::any());")
+                call = "t.%s(%s)" % (mname, ", ".join(ARG_EXPR[at] for (_, at) in arglist))
+                add("            walk_any!(%s, cx); // %s" % (call, key), key)
+                add("        }")
+                add("    }")
+                harnesses.append("w_%s::%s" % (mid, hname))
         add("}")
     return "\n".join(out) + "\n", index, harnesses, stats
 
